@@ -108,6 +108,70 @@ fn fail(ctx: &mut Ctx, leg: &str, sources: &[String], variant: &[String], detail
     });
 }
 
+/// the bindings `compile()` leaves in a file are a function of the input, not of what an
+/// earlier compilation left at that path: a sequence of inputs of different sizes is compiled
+/// into the same file and into the same directory, and after each step the file must hold
+/// exactly the text `compile_to_string()` returns for that input
+fn file_history_leg(ctx: &mut Ctx, tier: Tier, seed: u64) {
+    use rasn_compiler::prelude::{Compiler, RasnBackend, TypescriptBackend};
+    use rasn_compiler::OutputMode;
+    let gcfg = GenCfg { max_modules: 2, ..GenCfg::default() };
+    let mut drv = Driver::new(seed, 1111, 3000);
+    let n = tier.pick(40, 400);
+    let texts: Vec<String> = drv.draw(n).iter().map(|t| print(&gen_set(&t.current(), &gcfg))).collect();
+    let small = "Tiny DEFINITIONS AUTOMATIC TAGS ::= BEGIN\nT ::= NULL\nEND\n".to_string();
+    let work = tempfile::tempdir().expect("tempdir");
+    for ts in [false, true] {
+        for dir_mode in [false, true] {
+            let dir = work.path().join(format!("h-{ts}-{dir_mode}"));
+            let _ = std::fs::create_dir_all(&dir);
+            let (target, file) = if dir_mode { (dir.clone(), dir.join(if ts { "generated.ts" } else { "generated.rs" })) } else { (dir.join("out.txt"), dir.join("out.txt")) };
+            // long and short inputs alternate, so that every other step has to shorten the file
+            let mut seq: Vec<&String> = vec![];
+            for (i, t) in texts.iter().enumerate() {
+                seq.push(t);
+                if i % 2 == 1 {
+                    seq.push(&small);
+                }
+            }
+            let mut prev_len = 0usize;
+            for (step, text) in seq.iter().enumerate() {
+                let (want, got) = if ts {
+                    (
+                        comp::guarded(|| Compiler::<TypescriptBackend, _>::new().add_asn_literal((*text).clone()).compile_to_string()),
+                        comp::guarded(|| Compiler::<TypescriptBackend, _>::new().add_asn_literal((*text).clone()).set_output_mode(OutputMode::SingleFile(target.clone())).compile()),
+                    )
+                } else {
+                    (
+                        comp::guarded(|| Compiler::<RasnBackend, _>::new().add_asn_literal((*text).clone()).compile_to_string()),
+                        comp::guarded(|| Compiler::<RasnBackend, _>::new().add_asn_literal((*text).clone()).set_output_mode(OutputMode::SingleFile(target.clone())).compile()),
+                    )
+                };
+                let (Ok(Ok(want)), Ok(Ok(_))) = (want, got) else { continue };
+                let on_disk = std::fs::read_to_string(&file).unwrap_or_default();
+                let shrinks = want.generated.len() < prev_len;
+                prev_len = on_disk.len();
+                ctx.case(&format!("file-history:{ts}:{dir_mode}:{step}:{text}"), shrinks);
+                ctx.class_n("leg:file-output-after-other-compilations", 1);
+                // (rustfmt may or may not be found for the file: compare without white space)
+                let squash = |t: &str| t.chars().filter(|c| !c.is_whitespace()).collect::<String>();
+                if squash(&on_disk) != squash(&want.generated) {
+                    let d = format!(
+                        "step {step} ({} backend, {}): the file holds {} bytes, compile_to_string returns {}; tail of the file: {:?}",
+                        if ts { "TypeScript" } else { "rasn" },
+                        if dir_mode { "output directory" } else { "output file" },
+                        on_disk.len(),
+                        want.generated.len(),
+                        on_disk.chars().rev().take(80).collect::<String>().chars().rev().collect::<String>()
+                    );
+                    fail(ctx, "file-history", &[(*text).clone()], &[(*text).clone()], &d);
+                    break;
+                }
+            }
+        }
+    }
+}
+
 pub fn run(tier: Tier, seed: u64, replay: Option<String>) -> i32 {
     let mut ctx = Ctx::new("C11", tier, seed);
     ctx.rule = "inputs: real-world modules of the repository that compile (each alone) and generator outputs; legs: repeat, fresh thread, after k other \
@@ -125,6 +189,30 @@ pub fn run(tier: Tier, seed: u64, replay: Option<String>) -> i32 {
         let v: Value = serde_json::from_str(&std::fs::read_to_string(&path).expect("replay")).expect("json");
         let base: Vec<String> = v["sources"].as_array().unwrap().iter().map(|s| s["text"].as_str().unwrap().to_string()).collect();
         let var: Vec<String> = v["variant_sources"].as_array().unwrap().iter().map(|s| s.as_str().unwrap().to_string()).collect();
+        if v["leg"].as_str() == Some("file-history") {
+            // a long text first, then the recorded one, into the same file, for both backends
+            use rasn_compiler::prelude::{Compiler, RasnBackend, TypescriptBackend};
+            use rasn_compiler::OutputMode;
+            let long = format!("Long DEFINITIONS AUTOMATIC TAGS ::= BEGIN\n{}END\n", (0..200).map(|i| format!("Filler-Type{i} ::= SEQUENCE {{ a INTEGER, b BOOLEAN OPTIONAL }}\n")).collect::<String>());
+            let work = tempfile::tempdir().expect("tempdir");
+            let squash = |t: &str| t.chars().filter(|c| !c.is_whitespace()).collect::<String>();
+            for ts in [false, true] {
+                let file = work.path().join(format!("out-{ts}.txt"));
+                for text in [&long, &base[0]] {
+                    let mode = OutputMode::SingleFile(file.clone());
+                    let _ = if ts { comp::guarded(|| Compiler::<TypescriptBackend, _>::new().add_asn_literal(text.clone()).set_output_mode(mode).compile().map(|_| ())) } else { comp::guarded(|| Compiler::<RasnBackend, _>::new().add_asn_literal(text.clone()).set_output_mode(mode).compile().map(|_| ())) };
+                }
+                let want = if ts { comp::compile_ts(&base) } else { comp::compile_rasn(&base, &Cfg::default()) };
+                if let Outcome::Ok(w) = want {
+                    let on_disk = std::fs::read_to_string(&file).unwrap_or_default();
+                    ctx.case(&format!("file-history-replay:{ts}:{}", base[0]), true);
+                    if squash(&on_disk) != squash(&w.generated) {
+                        fail(&mut ctx, "file-history", &base, &var, &format!("after a longer compilation into the same file it holds {} bytes, compile_to_string returns {}", on_disk.len(), w.generated.len()));
+                    }
+                }
+            }
+            return ctx.finish();
+        }
         // (several rounds and both backends: a dependence on a per-process random state does
         // not show in every pair of runs)
         let rcfg = match v["leg"].as_str() {
@@ -607,5 +695,6 @@ pub fn run(tier: Tier, seed: u64, replay: Option<String>) -> i32 {
             }
         }
     }
+    file_history_leg(&mut ctx, tier, seed);
     ctx.finish()
 }
